@@ -236,6 +236,9 @@ func reifyMap(opts *options, to reflect.Value, from *Config, validators []valida
 		verifKeyOrder("reifyMap", k)
 		opts.activeFields = newFieldSet(parentFields)
 		key := reflect.ValueOf(k).Convert(to.Type().Key())
+		if err := tryValidate(key); err != nil {
+			return raiseValidation(from.ctx, from.metadata, k, err)
+		}
 
 		old := to.MapIndex(key)
 		var v reflect.Value
@@ -263,6 +266,9 @@ func reifyMap(opts *options, to reflect.Value, from *Config, validators []valida
 	for _, key := range to.MapKeys() {
 		if _, touched := fields[key.String()]; touched {
 			continue
+		}
+		if err := tryValidate(key); err != nil {
+			return raiseValidation(from.ctx, from.metadata, key.String(), err)
 		}
 		if err := tryRecursiveValidate(to.MapIndex(key), opts, nil); err != nil {
 			return raiseValidation(from.ctx, from.metadata, key.String(), err)
